@@ -41,16 +41,17 @@ Section Sound.
   Variable st : bool.
   Variable dc : list name.
   Variable ns : list name.
+  Variable W : world.
 
-  Notation exec := (exec st dc ns).
-  Notation loop := (loop st dc ns).
-  Notation exec_h := (exec_h st dc ns).
-  Notation fin := (fin st dc ns).
-  Notation chk := (chk st dc ns).
-  Notation chk_h := (chk_h st dc ns).
-  Notation ce := (ce st dc ns).
+  Notation exec := (exec st dc ns W).
+  Notation loop := (loop st dc ns W).
+  Notation exec_h := (exec_h st dc ns W).
+  Notation fin := (fin st dc ns W).
+  Notation chk := (chk st dc ns W).
+  Notation chk_h := (chk_h st dc ns W).
+  Notation ce := (ce st dc ns W).
 
-  Lemma ce_sound D B e r : ce D e = true -> incl D B -> eval ns (fenv st dc B) e r -> r <> RName.
+  Lemma ce_sound D B e r : ce D e = true -> incl D B -> eval ns W (fenv st dc B) e r -> r <> RName.
   Proof.
     intros H HI HE. unfold Closed.ce in H. eapply chk_expr_sound; [exact H | | exact HE].
     constructor; [| constructor]. repeat split; auto.
@@ -77,7 +78,7 @@ Section Sound.
     (forall hs B o, exec_h hs B o -> F_h hs B o) /\
     (forall fi o2 o, fin fi o2 o -> F_fin fi o2 o).
   Proof.
-    apply (exec_all_ind st dc ns F_exec F_loop F_h F_fin);
+    apply (exec_all_ind st dc ns W F_exec F_loop F_h F_fin);
       unfold F_exec, F_loop, F_h, F_fin; simpl kill; simpl kill_h.
     - (* XPass *) intros B B' H x Hx _. inversion H; subst; auto.
     - intros B B' H x Hx _. inversion H; subst; auto.
@@ -241,7 +242,7 @@ Section Sound.
     (forall fi o2 o, fin fi o2 o -> P_fin fi o2 o).
   Proof.
     destruct frame_all as (FrE & FrL & FrH & FrF).
-    apply (exec_all_ind st dc ns P_exec P_loop P_h P_fin);
+    apply (exec_all_ind st dc ns W P_exec P_loop P_h P_fin);
       unfold P_exec, P_loop, P_h, P_fin.
     - (* XPass *) intros B D R H HI. sim H. inversion H; subst. split; [discriminate|].
       intros B' E. inversion E; subst. eauto.
@@ -436,21 +437,23 @@ Definition is_some {A} (o : option A) : bool := match o with Some _ => true | No
 (* nm: names visible to module level code that the program does not define itself
        (locals dict handed to exec + globals + builtins);
    nf: names visible to function bodies (globals + builtins when the entry point becomes callable) *)
-Definition check_closed (nm nf : list name) (p : program) : bool :=
-  is_some (chk false [] nm (mod_stmt p) []) &&
-  forallb (fun f => is_some (chk true (fdecl f) nf (fbody f) (fparams f))) (defs p).
+Definition check_closed (nm nf : list name) (Wm Wf : world) (p : program) : bool :=
+  is_some (chk false [] nm Wm (mod_stmt p) []) &&
+  forallb (fun f => is_some (chk true (fdecl f) nf Wf (fbody f) (fparams f))) (defs p).
 
-Theorem closed_sound nm nf p :
-  check_closed nm nf p = true ->
-  (forall o, exec false [] nm (mod_stmt p) [] o -> o <> OName) /\
+(* OName: a reference error of the library's own making - NameError, UnboundLocalError, or an
+   AttributeError on a module / class / holder of the captured namespace *)
+Theorem closed_sound nm nf Wm Wf p :
+  check_closed nm nf Wm Wf p = true ->
+  (forall o, exec false [] nm Wm (mod_stmt p) [] o -> o <> OName) /\
   (forall f, In f (defs p) -> forall B o,
-      incl (fparams f) B -> exec true (fdecl f) nf (fbody f) B o -> o <> OName).
+      incl (fparams f) B -> exec true (fdecl f) nf Wf (fbody f) B o -> o <> OName).
 Proof.
   unfold check_closed. intros H. apply andb_true_iff in H as [Hm Hf]. split.
-  - intros o X. destruct (chk false [] nm (mod_stmt p) []) as [R|] eqn:C; [| discriminate].
+  - intros o X. destruct (chk false [] nm Wm (mod_stmt p) []) as [R|] eqn:C; [| discriminate].
     eapply chk_sound; eauto. apply incl_refl.
   - intros f Hin B o HI X. rewrite forallb_forall in Hf. specialize (Hf f Hin).
-    destruct (chk true (fdecl f) nf (fbody f) (fparams f)) as [R|] eqn:C; [| discriminate].
+    destruct (chk true (fdecl f) nf Wf (fbody f) (fparams f)) as [R|] eqn:C; [| discriminate].
     eapply chk_sound; eauto.
 Qed.
 
@@ -482,16 +485,17 @@ Proof.
   destruct Hx as [<- | Hx]; [exact E | eapply IH; eauto].
 Qed.
 
-Definition case_ok (c : list N * list N * program) : bool :=
-  check_closed (fst (fst c)) (snd (fst c)) (snd c).
+Record pcase := mkCase { c_nm : list N; c_nf : list N; c_wm : world; c_wf : world; c_prog : program }.
+
+Definition case_ok (c : pcase) : bool := check_closed (c_nm c) (c_nf c) (c_wm c) (c_wf c) (c_prog c).
 
 (* what a shard file's kernel-checked `bad_idx case_ok cases = []` means for each of its programs *)
 Theorem shard_sound cases :
   Wire.bad_idx case_ok cases = [] ->
   forall c, In c cases ->
-    (forall o, exec false [] (fst (fst c)) (mod_stmt (snd c)) [] o -> o <> OName) /\
-    (forall f, In f (defs (snd c)) -> forall B o,
-        incl (fparams f) B -> exec true (fdecl f) (snd (fst c)) (fbody f) B o -> o <> OName).
+    (forall o, exec false [] (c_nm c) (c_wm c) (mod_stmt (c_prog c)) [] o -> o <> OName) /\
+    (forall f, In f (defs (c_prog c)) -> forall B o,
+        incl (fparams f) B -> exec true (fdecl f) (c_nf c) (c_wf c) (fbody f) B o -> o <> OName).
 Proof.
   intros H c Hc. apply closed_sound. exact (bad_from_nil case_ok cases 0%nat H c Hc).
 Qed.
